@@ -26,7 +26,8 @@ import json, math, os, subprocess, tempfile, concurrent.futures
 from harness.drive import f2b, b2f
 
 ID = "C11"
-THEOREM_MODULES = ["JF.Props.C11", "JF.Props.SystemLinks"]
+THEOREM_MODULES = ["JF.Props.C11", "JF.Props.SystemLinks", "JF.Props.SystemInv"]
+NEEDS_GEN = True
 COMPONENTS = ["occ"]
 ASSUMPTIONS = [
     "exactly one active unit on the cell level per update call (the class asserts it); positions lie inside the box "
